@@ -97,6 +97,7 @@ func psReachVal(fn *ssa.Function, starts []*ssa.BasicBlock, cut func(from *ssa.B
 		return false, false
 	}
 	reach := map[*ssa.BasicBlock]bool{}
+	lastPsEdges = map[[2]*ssa.BasicBlock]bool{}
 	seen := map[psState]bool{}
 	type item struct {
 		b *ssa.BasicBlock
@@ -162,6 +163,7 @@ func psReachVal(fn *ssa.Function, starts []*ssa.BasicBlock, cut func(from *ssa.B
 					delete(ne, idx)
 				}
 			}
+			lastPsEdges[[2]*ssa.BasicBlock{it.b, s}] = true
 			q = append(q, item{s, ne})
 		}
 	}
@@ -182,3 +184,6 @@ func evalVHelper(v ssa.Value, e map[int]bool, phiIdx map[*ssa.Phi]int) (bool, bo
 	}
 	return false, false
 }
+
+// lastPsEdges: CFG edges traversed by the most recent psReachVal call (feasible edges under its valuation).
+var lastPsEdges map[[2]*ssa.BasicBlock]bool
